@@ -15,18 +15,7 @@ from .c01 import where
 FLOOR_UNITS = 21
 
 
-def run(prog, rep):
-    cd = Codecs(prog)
-    cd.flag_errors(rep)
-    from ..codecs import no_stale_derived_state
-    rep.attempt(no_stale_derived_state, prog, cd, rep)
-    rep.explanation = (
-        "size-identity: the nBytes definition of every Sized unit and the byte count of its writer's layout term are "
-        "normalised to polynomials over shape atoms (len, segment sums, guarded terms) and must be identical; "
-        "consumed-equals-written: the reader's term consumes position by position the widths and counts the writer emits "
-        "(no trailing reads); container-size: add_block takes entry.size from newBlock.nBytes, writes the block at the "
-        "entry's offset and gives every later slot offset+size."
-    )
+def size_identity(prog, cd, rep, with_consumed=True):
     n_units = 0
     for u in cd.units.values():
         un = cd.unify(u)
@@ -47,6 +36,8 @@ def run(prog, rep):
             rep.fail("size-identity", mod, f"{u.name}.nBytes", node,
                      f"declared size `{nb}` differs from bytes written `{wb}` (written - declared = {diff})",
                      construct=f"{u.name}.nBytes vs {u.name}._write", detail={"nBytes": str(nb), "writer": str(wb), "difference": str(diff)})
+        if not with_consumed:
+            continue
         # bytes consumed: reader agrees with writer at every position
         bad = 0
         for ok, sub, wn, rn, text in cd.results[u.name]:
@@ -58,6 +49,22 @@ def run(prog, rep):
                 bad += 1
                 m, fn = where(u, "r") if rn is not None else where(u, "w")
                 rep.fail("consumed-equals-written", m, fn, rn if rn is not None else wn, f"[{sub}] {text}")
+    return n_units
+
+
+def run(prog, rep):
+    cd = Codecs(prog)
+    cd.flag_errors(rep)
+    from ..codecs import no_stale_derived_state
+    rep.attempt(no_stale_derived_state, prog, cd, rep)
+    rep.explanation = (
+        "size-identity: the nBytes definition of every Sized unit and the byte count of its writer's layout term are "
+        "normalised to polynomials over shape atoms (len, segment sums, guarded terms) and must be identical; "
+        "consumed-equals-written: the reader's term consumes position by position the widths and counts the writer emits "
+        "(no trailing reads); container-size: add_block takes entry.size from newBlock.nBytes, writes the block at the "
+        "entry's offset and gives every later slot offset+size."
+    )
+    n_units = size_identity(prog, cd, rep)
     rep.floor("size-identity/units", n_units, FLOOR_UNITS)
 
     # container clause
